@@ -65,6 +65,10 @@ def _hook(event, args):
             e["existed"] = isinstance(path, str) and os.path.lexists(path)
         except (ValueError, OSError):
             e["existed"] = False
+        try:                            # resolved while the scratch tree (and its symbolic links) still exists
+            e["real"] = os.path.realpath(path) if isinstance(path, str) else None
+        except (ValueError, OSError):
+            e["real"] = None
         if w and not _inside_root(path):
             e["blocked"] = True         # safety net: nothing is ever written outside the scratch tree
             # what would the kernel have done?  (component-wise resolution, not lexical normalisation)
@@ -121,6 +125,11 @@ def run_job(job, high_level, cmapdb, image_mod):
                     f.write(DECOY_PICKLE if kind == "pickle" else b"pre-existing " + rel.encode("utf-8", "replace"))
             except (OSError, ValueError):
                 pass                    # a candidate whose parent does not exist cannot pre-exist
+        for link, target in job.get("symlinks", []):
+            try:
+                os.symlink(os.path.join(root, target), os.path.join(root, link))
+            except OSError:
+                pass
         for rel in job.get("prefiles", []):
             # candidate image files that already exist (kernel path semantics, never outside the scratch tree)
             try:
@@ -138,7 +147,11 @@ def run_job(job, high_level, cmapdb, image_mod):
         inp = os.path.join(root, "in.pdf")
         with open(inp, "wb") as f:
             f.write(base64.b64decode(job["pdf"]))
-    os.environ["CMAP_PATH"] = os.path.join(root, "res") + "/"
+    os.environ["CMAP_PATH"] = os.path.join(root, job.get("cmap_path", "res")) + "/"
+    for attr in dir(cmapdb.CMapDB):                 # any cache a tree under test keeps about directories
+        v = getattr(cmapdb.CMapDB, attr)
+        if attr.startswith("_") and not attr.startswith("__") and isinstance(v, dict):
+            v.clear()
     _rec["root"] = os.path.realpath(root)
     try:
         os.chdir(os.path.join(root, "dec") if os.path.isdir(os.path.join(root, "dec")) else root)
